@@ -2,12 +2,11 @@
 not re-typed - so that an edit of the driver's signs, argument order or wiring is part of what the checks see.
 
 example.py cannot be imported and run (its body is a 100-round adaptive loop under __main__).  We parse it, pick
-  * all top-level imports,
-  * in the __main__ body: the `if args.domain == ...` chain, and the assignments to data, problem, SL, M0/M0u0
-    (the `if 'u0' in data` statement), g/g_linform (the `if 'g' in data` statement), error_estimator,
-    hierarch_error_estimator, h_h2_error_estimator,
-  * in the main loop: the assignments to elems, N, mat, rhs (incl. the `if M0:` / `if g_linform:` updates), Phi and
-    residual,
+  * everything at module level except the __main__ block (imports, helper functions, constants),
+  * in the __main__ body: the statement that creates `mesh` (the `if args.domain == ...` chain or a helper call), and every
+    assignment / if / with statement before the main loop that assigns data, problem, SL, M0, M0u0, g, g_linform,
+    error_estimator, hierarch_error_estimator or h_h2_error_estimator,
+  * in the main loop (the for statement that assigns `mat`): the statements that assign elems, N, mat, rhs, Phi and residual,
 and execute them in a prepared namespace (args, cache_dir, serial stand-in for multiprocessing).  A driver whose
 statements can no longer be located is a HarnessError, never a verdict."""
 import ast
@@ -30,6 +29,12 @@ class SerialPool:
 
     def imap(self, f, it, chunksize=1):
         return (f(x) for x in it)
+
+    def imap_unordered(self, f, it, chunksize=1):
+        return (f(x) for x in it)
+
+    def starmap(self, f, it, chunksize=None):
+        return [f(*x) for x in it]
 
     def close(self):
         pass
@@ -73,41 +78,56 @@ def _src(node):
     return ast.unparse(node)
 
 
+def _deep_targets(node):
+    """Names assigned anywhere inside a statement (plain, augmented and tuple assignments; bodies of if / with / for)."""
+    out = set()
+    for n in ast.walk(node):
+        if isinstance(n, ast.Assign):
+            out |= _targets(n)
+        elif isinstance(n, (ast.AugAssign, ast.AnnAssign)) and isinstance(n.target, ast.Name):
+            out.add(n.target.id)
+    return out
+
+
+SETUP_NAMES = {'data', 'problem', 'SL', 'M0', 'M0u0', 'g', 'g_linform', 'error_estimator', 'hierarch_error_estimator', 'h_h2_error_estimator'}
+LOOP_NAMES = {'elems', 'N', 'mat', 'rhs', 'Phi', 'residual'}
+
+
 class Driver:
     def __init__(self, path=None):
         path = path or os.path.join(common.REPO, 'example.py')
         with open(path) as fh:
             tree = ast.parse(fh.read())
-        self.imports = [n for n in tree.body if isinstance(n, (ast.Import, ast.ImportFrom))]
         main = [n for n in tree.body if isinstance(n, ast.If) and 'args' not in _src(n.test) and '__main__' in _src(n.test)]
         if len(main) != 1:
             raise HarnessError('example.py: __main__ block not found')
+        # everything at module level except the __main__ block: imports, helper functions, constants
+        self.imports = [n for n in tree.body if n is not main[0]]
         body = main[0].body
-        self.domain_chain = None
-        self.setup = []
         loop = None
-        want = ('data', 'problem', 'SL', 'error_estimator', 'hierarch_error_estimator', 'h_h2_error_estimator')
         for n in body:
-            if isinstance(n, ast.If) and 'args.domain' in _src(n.test) and self.domain_chain is None:
-                self.domain_chain = n
-            elif isinstance(n, ast.Assign) and _targets(n) & set(want):
-                self.setup.append(n)
-            elif isinstance(n, ast.If) and _src(n.test) in ("'u0' in data", "'g' in data"):
-                self.setup.append(n)
-            elif isinstance(n, ast.For) and loop is None and any(_targets(s) & {'mat'} for s in ast.walk(n) if isinstance(s, ast.Assign)):
+            if isinstance(n, ast.For) and any(_targets(s) & {'mat'} for s in ast.walk(n) if isinstance(s, ast.Assign)):
                 loop = n
-        if self.domain_chain is None or loop is None:
-            raise HarnessError('example.py: domain chain or main loop not found')
-        self.loop = []
-        for n in loop.body:
-            if isinstance(n, ast.Assign) and _targets(n) & {'elems', 'N', 'mat', 'rhs', 'Phi', 'residual'}:
-                self.loop.append(n)
-            elif isinstance(n, ast.If) and _src(n.test) in ('M0', 'g_linform') and any(_targets(s) & {'rhs'} or (isinstance(s, ast.AugAssign) and _src(s.target) == 'rhs') for s in ast.walk(n)):
-                self.loop.append(n)
+                break
+        if loop is None:
+            raise HarnessError('example.py: main loop (the for statement that assigns mat) not found')
+        before = body[:body.index(loop)]
+        # the statement that creates the boundary mesh (an `if args.domain == ...` chain, or a call of a helper)
+        self.domain_chain = next((n for n in before if 'mesh' in _deep_targets(n) and not isinstance(n, (ast.FunctionDef, ast.ClassDef))), None)
+        if self.domain_chain is None:
+            raise HarnessError('example.py: the statement that creates `mesh` was not found')
+        self.setup = [n for n in before if n is not self.domain_chain and isinstance(n, (ast.Assign, ast.AnnAssign, ast.If, ast.With))
+                      and _deep_targets(n) & SETUP_NAMES]
+        self.loop = [n for n in loop.body if isinstance(n, (ast.Assign, ast.AugAssign, ast.AnnAssign, ast.If, ast.With))
+                     and _deep_targets(n) & LOOP_NAMES]
+        # cut the loop statements after the residual (estimators, marking and refinement follow)
+        for i, n in enumerate(self.loop):
+            if 'residual' in _deep_targets(n):
+                self.loop = self.loop[:i + 1]
+                break
         found = set()
         for n in self.setup + self.loop:
-            for s in ast.walk(n):
-                found |= _targets(s) if isinstance(s, ast.Assign) else set()
+            found |= _deep_targets(n)
         missing = {'data', 'problem', 'SL', 'M0', 'M0u0', 'g', 'g_linform', 'error_estimator', 'elems', 'mat', 'rhs', 'Phi', 'residual'} - found
         if missing:
             raise HarnessError('example.py: statements assigning {} not found'.format(sorted(missing)))
